@@ -215,7 +215,7 @@ fn block(b: &mut Builder, depth: u32, protected: &mut Vec<i64>) {
 
 fn stmt(b: &mut Builder, depth: u32, protected: &mut Vec<i64>) {
     let deep = depth >= 3;
-    let w: [u32; 14] = [
+    let w: [u32; 18] = [
         8,                          // 0 add const
         3,                          // 1 clear / set
         8,                          // 2 drain with multipliers
@@ -230,6 +230,10 @@ fn stmt(b: &mut Builder, depth: u32, protected: &mut Vec<i64>) {
         if deep { 0 } else { 2 },   // 11 loop with non-unit step
         1,                          // 12 raw grammar snippet (balanced, pointer-neutral)
         if deep { 0 } else { 2 },   // 13 loop whose counter is also modified in the body
+        4,                          // 14 product / square: dst += a*b (a may equal b), operands maybe cleared afterwards
+        if protected.is_empty() { 0 } else { 5 }, // 15 conditional write to an enclosing loop's own condition cell, then a loop on it
+        3,                          // 16 conditional (input dependent) write to a cell, then use of that cell
+        if deep { 0 } else { 2 },   // 17 loop on a cell that an inner if may have zeroed, with output inside
     ];
     match b.rng.weighted(&w) {
         0 => {
@@ -371,7 +375,7 @@ fn stmt(b: &mut Builder, depth: u32, protected: &mut Vec<i64>) {
             let snippet = neutral_snippet(b.rng);
             b.out.push_str(&snippet);
         }
-        _ => {
+        13 => {
             let c = b.cell_not(protected);
             let v = b.rng.range(1, 4);
             b.set(c, v);
@@ -379,6 +383,145 @@ fn stmt(b: &mut Builder, depth: u32, protected: &mut Vec<i64>) {
             b.out.push('[');
             block(b, depth + 1, protected);
             b.add(c, -1);
+            b.goto(c);
+            b.out.push(']');
+        }
+        14 => {
+            // dst += a * b through a counter copy; a == b gives a square
+            let a = b.cell_not(protected);
+            let bb = if b.rng.chance(1, 2) { a } else { b.cell_not(protected) };
+            let mut not = protected.clone();
+            not.extend_from_slice(&[a, bb]);
+            let dst = b.cell_not(&not);
+            not.push(dst);
+            let t1 = b.cell_not(&not);
+            not.push(t1);
+            let t2 = b.cell_not(&not);
+            b.clear(t1);
+            b.clear(t2);
+            b.add_mul(t1, a, 1, t2);
+            b.goto(t1);
+            b.out.push('[');
+            b.add(t1, -1);
+            b.add_mul(dst, bb, 1, t2);
+            b.goto(t1);
+            b.out.push(']');
+            if b.rng.chance(1, 2) {
+                b.output(dst);
+            }
+            if b.rng.chance(1, 2) {
+                // the operand is cleared and the zero is observed later
+                b.clear(a);
+                if b.rng.chance(1, 2) {
+                    b.output(a);
+                }
+            }
+        }
+        15 => {
+            // inside a loop on c: an input/data dependent `if` writes c, then an inner loop runs on c
+            let c = *protected.last().unwrap();
+            let mut not = protected.clone();
+            let d = b.cell_not(&not);
+            not.push(d);
+            if b.rng.chance(1, 2) {
+                b.input(d);
+            }
+            b.goto(d);
+            b.out.push('[');
+            match b.rng.below(3) {
+                0 => b.clear(c),
+                1 => b.add(c, -1),
+                _ => {
+                    let v = b.rng.range(0, 2);
+                    b.set(c, v);
+                }
+            }
+            b.clear(d);
+            b.goto(d);
+            b.out.push(']');
+            b.goto(c);
+            b.out.push('[');
+            if b.rng.chance(2, 3) {
+                b.out.push('.');
+            }
+            match b.rng.below(3) {
+                0 => b.clear(c),
+                1 => b.add(c, -1),
+                _ => {
+                    b.clear(c);
+                    if b.rng.chance(1, 3) {
+                        b.add(c, 1);
+                    }
+                }
+            }
+            b.goto(c);
+            b.out.push(']');
+            // keep the enclosing loop finite most of the time: it ends with `c -= 1`, so give c a value
+            if b.rng.chance(3, 4) {
+                b.add(c, 1);
+            }
+        }
+        16 => {
+            let d = b.cell_not(protected);
+            let mut not = protected.clone();
+            not.push(d);
+            let x = b.cell_not(&not);
+            if b.rng.chance(2, 3) {
+                b.input(d);
+            }
+            b.goto(d);
+            b.out.push('[');
+            match b.rng.below(3) {
+                0 => b.clear(x),
+                1 => {
+                    let v = b.small_const();
+                    b.add(x, v);
+                }
+                _ => b.input(x),
+            }
+            b.clear(d);
+            b.goto(d);
+            b.out.push(']');
+            match b.rng.below(3) {
+                0 => b.output(x),
+                1 => {
+                    b.goto(x);
+                    b.out.push_str("[.[-]]");
+                }
+                _ => {
+                    let mut not2 = not.clone();
+                    not2.push(x);
+                    let y = b.cell_not(&not2);
+                    b.drain(x, &[(y, 1)], 1);
+                    b.output(y);
+                }
+            }
+        }
+        _ => {
+            let c = b.cell_not(protected);
+            let mut not = protected.clone();
+            not.push(c);
+            let d = b.cell_not(&not);
+            let v = b.rng.range(1, 3);
+            b.add(c, v);
+            b.goto(c);
+            b.out.push('[');
+            b.input(d);
+            b.goto(d);
+            b.out.push('[');
+            b.clear(c);
+            b.clear(d);
+            b.goto(d);
+            b.out.push(']');
+            b.goto(c);
+            b.out.push_str("[.[-]");
+            if b.rng.chance(1, 2) {
+                b.out.push('+');
+                b.out.push_str("]");
+                // `[.[-]+]` never ends once entered: only keep it rarely (divergent cases feed C05/C07)
+            } else {
+                b.out.push(']');
+            }
             b.goto(c);
             b.out.push(']');
         }
